@@ -38,7 +38,8 @@ pub fn generate(run_seed: u64, index: u64, _tier: Tier) -> Case {
     // (4 GiB and more do not fit 32 bits)
     let memory = *rng.pick(&["1GiB", "64MiB", "16KiB", "512B", "4GiB", "8GiB", "4097MiB"]);
     let port = 12000 + (index % 20000);
-    let ttl_probe = index % 6 == 5;
+    // (index % 6 == 2: current-thread runtime, == 5: multi-thread runtime)
+    let ttl_probe = index % 6 == 5 || index % 6 == 2;
     // the listen backlog is a configuration knob like the others: it must not change behaviour
     let backlog = *rng.pick(&["1024", "1024", "16", "4096"]);
     Case {
